@@ -64,6 +64,21 @@ def record(tw, rng, n, stats, probe_cap=60):
         for model in ("NRTL", "UNIQUAC"):
             T = gen.some_temperature(rng)
             x = gen.fraction(rng, ends=False) if rng.random() < 0.8 else rng.choice([gen.logu(rng, 1e-4, 1e-2), 1 - gen.logu(rng, 1e-4, 1e-2)])
+            if rng.random() < 0.35 and m.nrtl_params is not None:
+                # a SIBLING mixture - the same energies and first non-randomness factor, other optional parameters - has been evaluated
+                # at this very temperature just before: the answers for this mixture follow its own parameters
+                from pyvaporation.utils import NRTLParameters
+                q = m.nrtl_params
+                sib = pv.Mixture(name=m.name, first_component=m.first_component, second_component=m.second_component,
+                                 nrtl_params=NRTLParameters(g12=q.g12, g21=q.g21, alpha12=q.alpha12,
+                                                            alpha21=rng.choice([None, rng.uniform(0.1, 0.6)]),
+                                                            a12=rng.uniform(-2.0, 3.0), a21=rng.uniform(-2.0, 3.0)),
+                                 uniquac_params=m.uniquac_params)
+                try:
+                    gam(T, sib, x, "NRTL")
+                    pv.get_partial_pressures(T, sib, pv.Composition(p=x, type="molar"), "NRTL")
+                except Exception:  # noqa: BLE001
+                    pass
             h = min(2e-4, x / 50, (1 - x) / 50)
             pts = [x - 2 * h, x - h, x, x + h, x + 2 * h]
             gs = [gam(T, m, p, model) for p in pts]
